@@ -38,7 +38,33 @@ const (
 	kStruct
 	kPair  // a struct of two strings (ConfigEntry)
 	kPairs // a slice of them
+	kOIDs  // []OID
 )
+
+// a struct type of the file being translated: its fields in declaration order
+type field struct {
+	name string
+	k    kind
+}
+
+var structs = map[string][]field{}
+
+// translated methods: "Type.Method" -> lean name, result kinds, pointer receiver?
+type method struct {
+	lean string
+	want []kind
+	ptr  bool
+	recv string
+	// for (struct, error) results: the struct type
+	resStruct string
+}
+
+var methods = map[string]method{}
+var funcs = map[string]method{}
+
+// loopMeasure: for `for <call>() { … }` loops, the variable whose length bounds the iterations
+var loopMeasure = map[string]string{}
+
 
 type val struct {
 	code string
@@ -58,6 +84,11 @@ type env struct {
 	nloops int
 	// inside a loop body: what `continue` means
 	loopContinue func(ind string) string
+	structVars   map[string]string // local struct variable -> its type
+	recvName     string            // pointer receiver: its fields are appended to every non-error result
+	recvType     string
+	flat         bool              // results are one flat tuple (retFlat)
+	resType      string            // flat mode: the Lean type of the result
 }
 
 func bytesLit(s string) string {
@@ -176,7 +207,39 @@ func (e *env) expr(x ast.Expr) val {
 		if id, ok := t.Fun.(*ast.Ident); ok && len(t.Args) == 1 && (id.Name == "ObjectType" || id.Name == "string") {
 			return e.expr(t.Args[0]) // a conversion between string types
 		}
-		if sel, ok := t.Fun.(*ast.SelectorExpr); ok && len(t.Args) == 2 && exprName(sel.X) == "bytes" && sel.Sel.Name == "IndexByte" {
+		if at, ok := t.Fun.(*ast.ArrayType); ok && at.Len == nil && exprName(at.Elt) == "byte" && len(t.Args) == 1 {
+			return e.expr(t.Args[0]) // []byte(s)
+		}
+		if id, ok := t.Fun.(*ast.Ident); ok && len(t.Args) == 1 && (id.Name == "uint" || id.Name == "uint64") {
+			a := e.expr(t.Args[0])
+			switch a.k {
+			case kU64:
+				return a // uint is 64 bits wide on the platforms git-sizer supports
+			case kInt: // a length: never negative
+				return bind1(a, func(x string) string { return "(Int.toNat " + x + ")" }, kU64)
+			}
+			die(t.Pos(), "conversion to an unsigned type")
+		}
+		if sel, ok := t.Fun.(*ast.SelectorExpr); ok && len(t.Args) == 2 && exprName(sel.X) == "bytes" && sel.Sel.Name == "Index" {
+			a, b := e.expr(t.Args[0]), e.expr(t.Args[1])
+			if a.k != kStr || b.k != kStr {
+				die(t.Pos(), "bytes.Index of non-strings")
+			}
+			return bind2(a, b, func(x, y string) string { return "(Go.indexSubI " + x + " " + y + ")" }, kInt)
+		}
+		// a method of a local struct variable, value receiver, one result: iter.HasNext()
+		if sel, ok := t.Fun.(*ast.SelectorExpr); ok && len(t.Args) == 0 {
+			if ty, ok := e.structVars[exprName(sel.X)]; ok {
+				if m, ok := methods[ty+"."+sel.Sel.Name]; ok && len(m.want) == 1 {
+					var args []string
+					for _, f := range structs[ty] {
+						args = append(args, e.name[exprName(sel.X)+"."+f.name])
+					}
+					return val{"(" + m.lean + " " + strings.Join(args, " ") + ")", false, m.want[0]}
+				}
+			}
+		}
+		if sel, ok := t.Fun.(*ast.SelectorExpr); ok && len(t.Args) == 2 && (exprName(sel.X) == "bytes" || exprName(sel.X) == "strings") && sel.Sel.Name == "IndexByte" {
 			a, b := e.expr(t.Args[0]), e.expr(t.Args[1])
 			if b.k == kInt { // an untyped constant such as 0
 				b = val{"(" + strings.TrimSuffix(strings.TrimPrefix(b.code, "("), " : Int)") + " : UInt8)", true, kByte}
@@ -185,10 +248,10 @@ func (e *env) expr(x ast.Expr) val {
 		}
 		if id, ok := t.Fun.(*ast.Ident); ok && id.Name == "append" && len(t.Args) == 2 {
 			a, b := e.expr(t.Args[0]), e.expr(t.Args[1])
-			if a.k != kPairs || b.k != kPair {
+			if !(a.k == kPairs && b.k == kPair) && !(a.k == kOIDs && b.k == kOIDVal) {
 				die(t.Pos(), "append of unsupported kinds")
 			}
-			return bind2(a, b, func(x, y string) string { return "(" + x + " ++ [" + y + "])" }, kPairs)
+			return bind2(a, b, func(x, y string) string { return "(" + x + " ++ [" + y + "])" }, a.k)
 		}
 		if sel, ok := t.Fun.(*ast.SelectorExpr); ok && len(t.Args) == 1 {
 			if pk, ok := sel.X.(*ast.Ident); ok && pk.Name == "counts" {
@@ -314,12 +377,18 @@ func (e *env) ret(rs []ast.Expr, want []kind) string {
 	if len(rs) != len(want) {
 		die(rs[0].Pos(), "number of results")
 	}
+	if e.flat && want[len(want)-1] != kErr {
+		return e.retFlat(rs, want)
+	}
 	// (value, error) functions: a non-nil error is `.err`, `S{...}, nil` is the tuple of the fields
 	if want[len(want)-1] == kErr {
 		if !isNil(rs[len(rs)-1]) {
 			return ".err \"error\""
 		}
 		rs, want = rs[:len(rs)-1], want[:len(want)-1]
+		if e.flat {
+			return e.retFlat(rs, want)
+		}
 		if len(rs) == 1 && want[0] == kStruct {
 			if _, isLit := rs[0].(*ast.CompositeLit); !isLit {
 				return e.retVals(rs, []kind{-1})
@@ -344,6 +413,55 @@ func (e *env) ret(rs []ast.Expr, want []kind) string {
 		}
 	}
 	return e.retVals(rs, want)
+}
+
+// retFlat: results flattened into one tuple — struct values contribute their fields in declaration
+// order, and a pointer receiver's fields (the state the method leaves behind) come last
+func (e *env) retFlat(rs []ast.Expr, want []kind) string {
+	var vs []val
+	for i, r := range rs {
+		if want[i] == kStruct {
+			svs, ok := e.structVals(r)
+			if !ok {
+				die(r.Pos(), "unsupported struct-valued result")
+			}
+			vs = append(vs, svs...)
+			continue
+		}
+		v := e.expr(r)
+		if v.k != want[i] {
+			die(r.Pos(), "result kind")
+		}
+		vs = append(vs, v)
+	}
+	if e.recvName != "" {
+		for _, f := range structs[e.recvType] {
+			vs = append(vs, val{e.name[e.recvName+"."+f.name], true, f.k})
+		}
+	}
+	return e.tuple(vs)
+}
+
+func (e *env) tuple(vs []val) string {
+	var binds []string
+	var names []string
+	for _, v := range vs {
+		if v.pure {
+			names = append(names, v.code)
+		} else {
+			n := fresh()
+			binds = append(binds, fmt.Sprintf("let %s ← %s; ", n, v.m()))
+			names = append(names, n)
+		}
+	}
+	tuple := names[0]
+	if len(names) > 1 {
+		tuple = "(" + strings.Join(names, ", ") + ")"
+	}
+	if len(binds) == 0 {
+		return "pure " + tuple
+	}
+	return "(do " + strings.Join(binds, "") + "pure " + tuple + ")"
 }
 
 func (e *env) retVals(rs []ast.Expr, want []kind) string {
@@ -385,7 +503,83 @@ func (e *env) declare(name string, k kind) {
 		e.locals = append(e.locals, name)
 	}
 	e.vars[name] = k
-	e.name[name] = "g_" + name
+	e.name[name] = "g_" + strings.ReplaceAll(name, ".", "_")
+}
+
+// declareStruct introduces a local variable of struct type `ty`: one variable per field
+func (e *env) declareStruct(name, ty string) {
+	if e.structVars == nil {
+		e.structVars = map[string]string{}
+	}
+	e.structVars[name] = ty
+	for _, f := range structs[ty] {
+		e.declare(name+"."+f.name, f.k)
+	}
+}
+
+func zeroOf(k kind) string {
+	z := map[kind]string{kBool: "false", kInt: "(0 : Int)", kStr: "([] : Bytes)", kU64: "(0 : Nat)", kOIDVal: "Go.zeroOID", kOIDs: "([] : List Bytes)", kPairs: "([] : List (Bytes × Bytes))"}[k]
+	if z == "" {
+		panic("no zero value")
+	}
+	return z
+}
+
+// structVals: the components of a struct-valued expression, in field order
+func (e *env) structVals(x ast.Expr) ([]val, bool) {
+	if u, ok := x.(*ast.UnaryExpr); ok && u.Op == token.AND {
+		x = u.X
+	}
+	if id, ok := x.(*ast.Ident); ok {
+		if ty, ok := e.structVars[id.Name]; ok {
+			var vs []val
+			for _, f := range structs[ty] {
+				vs = append(vs, val{e.name[id.Name+"."+f.name], true, f.k})
+			}
+			return vs, true
+		}
+	}
+	if cl, ok := x.(*ast.CompositeLit); ok {
+		ty := exprName(cl.Type)
+		fs, known := structs[ty]
+		if !known {
+			return nil, false
+		}
+		if len(cl.Elts) == 0 {
+			var vs []val
+			for _, f := range fs {
+				vs = append(vs, val{zeroOf(f.k), true, f.k})
+			}
+			return vs, true
+		}
+		if len(cl.Elts) != len(fs) {
+			die(cl.Pos(), "struct literal that does not set every field")
+		}
+		vs := make([]val, len(fs))
+		for i, el := range cl.Elts {
+			if kv, ok := el.(*ast.KeyValueExpr); ok {
+				j := -1
+				for jj, f := range fs {
+					if f.name == exprName(kv.Key) {
+						j = jj
+					}
+				}
+				if j < 0 {
+					die(el.Pos(), "unknown field")
+				}
+				vs[j] = e.expr(kv.Value)
+			} else {
+				vs[i] = e.expr(el)
+			}
+		}
+		for i, v := range vs {
+			if v.k != fs[i].k {
+				die(cl.Pos(), "field %s: kind", fs[i].name)
+			}
+		}
+		return vs, true
+	}
+	return nil, false
 }
 
 func (e *env) tmpLet(name string, v val, ind string) string {
@@ -479,15 +673,65 @@ func (e *env) stmts(list []ast.Stmt, ind string, cont func(ind string) string) s
 					id := t.Lhs[0].(*ast.Ident)
 					e.declare(id.Name, k)
 					// the `if err != nil { return …, err }` that follows is the bind itself
-					tail := list[1:]
-					if len(tail) > 0 {
-						if ifs, ok := tail[0].(*ast.IfStmt); ok && srcCond(ifs.Cond) == "err != nil" && ifs.Else == nil {
-							tail = tail[1:]
-						} else {
-							die(t.Pos(), "error of a library call is not checked at once")
+					tail := e.skipErrCheck(t, list[1:])
+					return fmt.Sprintf("%slet %s ← %s\n%s", ind, e.name[id.Name], lean, e.stmts(tail, ind, cont))
+				}
+			}
+		}
+		// results of a translated function or method with an error: x…, err := f(args) / v.m(args),
+		// followed by `if err != nil { return …, <error> }` (which is the monad's bind)
+		if len(t.Rhs) == 1 && len(t.Lhs) >= 2 && exprName(t.Lhs[len(t.Lhs)-1]) == "err" {
+			if c, ok := t.Rhs[0].(*ast.CallExpr); ok {
+				var m method
+				var args []string
+				found := false
+				recvVar := ""
+				if fid, ok := c.Fun.(*ast.Ident); ok {
+					m, found = funcs[fid.Name]
+				} else if sel, ok := c.Fun.(*ast.SelectorExpr); ok {
+					if ty, ok := e.structVars[exprName(sel.X)]; ok {
+						m, found = methods[ty+"."+sel.Sel.Name]
+						recvVar = exprName(sel.X)
+						for _, f := range structs[ty] {
+							args = append(args, e.name[recvVar+"."+f.name])
 						}
 					}
-					return fmt.Sprintf("%slet %s ← %s\n%s", ind, e.name[id.Name], lean, e.stmts(tail, ind, cont))
+				}
+				if found && m.want[len(m.want)-1] == kErr {
+					for _, a := range c.Args {
+						v := e.expr(a)
+						if !v.pure {
+							die(a.Pos(), "impure argument")
+						}
+						args = append(args, v.code)
+					}
+					if len(m.want) != len(t.Lhs) {
+						die(t.Pos(), "number of results")
+					}
+					var names []string
+					for i, l := range t.Lhs[:len(t.Lhs)-1] {
+						id := l.(*ast.Ident)
+						if m.want[i] == kStruct {
+							e.declareStruct(id.Name, m.resStruct)
+							for _, f := range structs[m.resStruct] {
+								names = append(names, e.name[id.Name+"."+f.name])
+							}
+							continue
+						}
+						e.declare(id.Name, m.want[i])
+						names = append(names, e.name[id.Name])
+					}
+					if m.ptr { // the receiver as the method leaves it
+						for _, f := range structs[m.recv] {
+							names = append(names, e.name[recvVar+"."+f.name])
+						}
+					}
+					tail := e.skipErrCheck(t, list[1:])
+					pat := names[0]
+					if len(names) > 1 {
+						pat = "(" + strings.Join(names, ", ") + ")"
+					}
+					return fmt.Sprintf("%slet %s ← %s %s\n%s", ind, pat, m.lean, strings.Join(args, " "), e.stmts(tail, ind, cont))
 				}
 			}
 		}
@@ -516,6 +760,45 @@ func (e *env) stmts(list []ast.Stmt, ind string, cont func(ind string) string) s
 			}
 		}
 		die(t.Pos(), "unsupported assignment")
+	case *ast.DeclStmt:
+		gd, ok := t.Decl.(*ast.GenDecl)
+		if !ok || gd.Tok != token.VAR || len(gd.Specs) != 1 {
+			die(t.Pos(), "unsupported declaration")
+		}
+		vs := gd.Specs[0].(*ast.ValueSpec)
+		if len(vs.Names) != 1 || len(vs.Values) != 0 || vs.Type == nil {
+			die(t.Pos(), "unsupported declaration")
+		}
+		name := vs.Names[0].Name
+		if ty := exprName(vs.Type); structs[ty] != nil {
+			e.declareStruct(name, ty)
+			lines := ""
+			for _, f := range structs[ty] {
+				lines += fmt.Sprintf("%slet %s := %s\n", ind, e.name[name+"."+f.name], zeroOf(f.k))
+			}
+			return lines + rest(ind)
+		}
+		k := varKind(vs.Type)
+		e.declare(name, k)
+		return fmt.Sprintf("%slet %s := %s\n%s", ind, e.name[name], zeroOf(k), rest(ind))
+	case *ast.ExprStmt:
+		// copy(x.OID.v[0:20], s[0:20]): the 20 bytes of an object id
+		if c, ok := t.X.(*ast.CallExpr); ok && exprName(c.Fun) == "copy" && len(c.Args) == 2 {
+			dst, ok1 := c.Args[0].(*ast.SliceExpr)
+			src, ok2 := c.Args[1].(*ast.SliceExpr)
+			if ok1 && ok2 && dst.Low != nil && dst.High != nil && srcLit(dst.Low) == "0" && srcLit(dst.High) == "20" &&
+				src.Low != nil && src.High != nil && srcLit(src.Low) == "0" && srcLit(src.High) == "20" {
+				if v, ok := dst.X.(*ast.SelectorExpr); ok && v.Sel.Name == "v" {
+					if fsel, ok := v.X.(*ast.SelectorExpr); ok {
+						key := exprName(fsel.X) + "." + fsel.Sel.Name
+						if e.vars[key] == kOIDVal {
+							return e.letStmt(key, e.expr(src), rest(ind), ind)
+						}
+					}
+				}
+			}
+		}
+		die(t.Pos(), "unsupported expression statement")
 	case *ast.IncDecStmt:
 		id, ok := t.X.(*ast.Ident)
 		if !ok || e.vars[id.Name] != kInt {
@@ -583,6 +866,45 @@ func (e *env) stmts(list []ast.Stmt, ind string, cont func(ind string) string) s
 	return ""
 }
 
+// skipErrCheck: the statement after a call with an error result must be
+// `if err != nil { return …, <non-nil error> }`; it is consumed (the bind of the Res monad does it)
+func (e *env) skipErrCheck(at ast.Node, tail []ast.Stmt) []ast.Stmt {
+	if len(tail) > 0 {
+		if ifs, ok := tail[0].(*ast.IfStmt); ok && ifs.Init == nil && srcCond(ifs.Cond) == "err != nil" && ifs.Else == nil && len(ifs.Body.List) == 1 {
+			if r, ok := ifs.Body.List[0].(*ast.ReturnStmt); ok && len(r.Results) > 0 && !isNil(r.Results[len(r.Results)-1]) && e.want[len(e.want)-1] == kErr {
+				return tail[1:]
+			}
+		}
+	}
+	die(at.Pos(), "error of a call is not checked at once")
+	return nil
+}
+
+// varKind: the kind of a local variable's declared type
+func varKind(x ast.Expr) kind {
+	switch exprName(x) {
+	case "OID":
+		return kOIDVal
+	case "bool":
+		return kBool
+	case "ObjectType", "string":
+		return kStr
+	case "int":
+		return kInt
+	}
+	if at, ok := x.(*ast.ArrayType); ok && at.Len == nil && exprName(at.Elt) == "OID" {
+		return kOIDs
+	}
+	die(x.Pos(), "unsupported variable type")
+	return kStr
+}
+
+func (e *env) child() *env {
+	return &env{vars: copyMap(e.vars), name: copyMapS(e.name), locals: append([]string{}, e.locals...), params: e.params, fname: e.fname,
+		want: e.want, aux: e.aux, nloops: e.nloops, structVars: copyMapS(e.structVars), recvName: e.recvName, recvType: e.recvType, flat: e.flat,
+		resType: e.resType}
+}
+
 func copyMap(m map[string]kind) map[string]kind {
 	r := map[string]kind{}
 	for k, v := range m {
@@ -648,7 +970,7 @@ func (e *env) forLoop(t *ast.ForStmt, ind string, rest func(string) string) stri
 		pats = append(pats, e.name[v])
 	}
 	// the auxiliary definition
-	sub := &env{vars: copyMap(e.vars), name: copyMapS(e.name), locals: append([]string{}, e.locals...), params: e.params, fname: e.fname, want: e.want, aux: e.aux, nloops: e.nloops}
+	sub := e.child()
 	recur := func(i string) string {
 		var as []string
 		for _, v := range carried {
@@ -699,6 +1021,9 @@ func srcCond(x ast.Expr) string {
 // whileLoop handles `for len(x) > 0 { body }` where the body shortens x: recursion on fuel
 // (len(x)+1 at entry; that it suffices is part of the equality theorem with the model).
 func (e *env) whileLoop(t *ast.ForStmt, ind string, rest func(string) string) string {
+	if _, isCall := t.Cond.(*ast.CallExpr); isCall {
+		return e.callLoop(t, ind, rest)
+	}
 	cond, ok := t.Cond.(*ast.BinaryExpr)
 	if !ok || cond.Op != token.GTR {
 		die(t.Pos(), "for: condition is not len(x) > 0")
@@ -719,7 +1044,7 @@ func (e *env) whileLoop(t *ast.ForStmt, ind string, rest func(string) string) st
 		binders = append(binders, leanType(e.vars[v]))
 		pats = append(pats, e.name[v])
 	}
-	sub := &env{vars: copyMap(e.vars), name: copyMapS(e.name), locals: append([]string{}, e.locals...), params: e.params, fname: e.fname, want: e.want, aux: e.aux, nloops: e.nloops}
+	sub := e.child()
 	recur := func(i string) string {
 		var as []string
 		for _, v := range carried {
@@ -729,7 +1054,8 @@ func (e *env) whileLoop(t *ast.ForStmt, ind string, rest func(string) string) st
 	}
 	sub.loopContinue = recur
 	body := sub.stmts(t.Body.List, "      ", recur)
-	sub2 := &env{vars: copyMap(e.vars), name: copyMapS(e.name), locals: append([]string{}, e.locals...), params: e.params, fname: e.fname, want: e.want, aux: e.aux, nloops: sub.nloops}
+	sub2 := e.child()
+	sub2.nloops = sub.nloops
 	exit := sub2.stmts(nil, "      ", rest)
 	var wantT []string
 	for _, k := range e.want {
@@ -745,6 +1071,50 @@ func (e *env) whileLoop(t *ast.ForStmt, ind string, rest func(string) string) st
 	fmt.Fprintf(e.aux, "def %s %s : Nat → %s → Res (%s)\n  | 0, %s => .panic \"loop-fuel\"\n  | fuel + 1, %s =>\n    if (%s.length : Int) > 0 then do\n%s\n    else do\n%s\n\n",
 		lname, strings.Join(e.params, " "), strings.Join(binders, " → "), strings.Join(wantT, " × "),
 		strings.Join(underscores(len(pats)), ", "), strings.Join(pats, ", "), e.name[mv], body, exit)
+	e.nloops = sub2.nloops
+	var callArgs []string
+	for _, v := range carried {
+		callArgs = append(callArgs, e.name[v])
+	}
+	return fmt.Sprintf("%s%s %s (%s.length + 1) %s", ind, lname, strings.Join(paramNames(e.params), " "), e.name[mv], strings.Join(callArgs, " "))
+}
+
+// callLoop handles `for v.m() { body }` (a translated method as the condition): recursion on fuel,
+// len(<loopMeasure variable>)+1 at entry; that it suffices is part of the equality theorem with the
+// model (running out of fuel is the panic "loop-fuel", which the model never returns).
+func (e *env) callLoop(t *ast.ForStmt, ind string, rest func(string) string) string {
+	mv := loopMeasure[e.fname]
+	if e.vars[mv] != kStr {
+		die(t.Pos(), "for: no measure known for this loop")
+	}
+	e.nloops++
+	lname := fmt.Sprintf("%s_loop%d", e.fname, e.nloops)
+	carried := append([]string{}, e.locals...)
+	var binders, pats []string
+	for _, v := range carried {
+		binders = append(binders, leanType(e.vars[v]))
+		pats = append(pats, e.name[v])
+	}
+	sub := e.child()
+	recur := func(i string) string {
+		var as []string
+		for _, v := range carried {
+			as = append(as, sub.name[v])
+		}
+		return fmt.Sprintf("%s%s %s fuel %s", i, lname, strings.Join(paramNames(e.params), " "), strings.Join(as, " "))
+	}
+	sub.loopContinue = recur
+	c := sub.expr(t.Cond)
+	if c.k != kBool {
+		die(t.Pos(), "for: condition is not a bool")
+	}
+	body := sub.stmts(t.Body.List, "      ", recur)
+	sub2 := e.child()
+	sub2.nloops = sub.nloops
+	exit := sub2.stmts(nil, "      ", rest)
+	fmt.Fprintf(e.aux, "def %s %s : Nat → %s → Res (%s)\n  | 0, %s => .panic \"loop-fuel\"\n  | fuel + 1, %s => do\n%s\n\n",
+		lname, strings.Join(e.params, " "), strings.Join(binders, " → "), e.resType,
+		strings.Join(underscores(len(pats)), ", "), strings.Join(pats, ", "), e.cond(c, body, exit, "    "))
 	e.nloops = sub2.nloops
 	var callArgs []string
 	for _, v := range carried {
@@ -803,7 +1173,7 @@ func kindOfType(x ast.Expr) kind {
 }
 
 func leanType(k kind) string {
-	return map[kind]string{kBool: "Bool", kInt: "Int", kStr: "Bytes", kByte: "UInt8", kStrs: "List Bytes", kU64: "Nat", kOIDVal: "Bytes", kPair: "(Bytes × Bytes)", kPairs: "List (Bytes × Bytes)"}[k]
+	return map[kind]string{kBool: "Bool", kInt: "Int", kStr: "Bytes", kByte: "UInt8", kStrs: "List Bytes", kU64: "Nat", kOIDVal: "Bytes", kPair: "(Bytes × Bytes)", kPairs: "List (Bytes × Bytes)", kOIDs: "List Bytes"}[k]
 }
 
 // resultOverride: the Lean type of the value part of a (struct, error) result
@@ -920,6 +1290,194 @@ func translate(repo, rel, recvType, fn, leanName string, out *strings.Builder) {
 	os.Exit(1)
 }
 
+// loadStructs records the struct types of a file (fields in declaration order)
+func loadStructs(repo, rel string) *ast.File {
+	f, err := parser.ParseFile(fset, filepath.Join(repo, rel), nil, 0)
+	if err != nil {
+		fmt.Fprintln(os.Stderr, err)
+		os.Exit(1)
+	}
+	for _, d := range f.Decls {
+		gd, ok := d.(*ast.GenDecl)
+		if !ok {
+			continue
+		}
+		for _, sp := range gd.Specs {
+			ts, ok := sp.(*ast.TypeSpec)
+			if !ok {
+				continue
+			}
+			st, ok := ts.Type.(*ast.StructType)
+			if !ok {
+				continue
+			}
+			var fs []field
+			okAll := true
+			for _, fl := range st.Fields.List {
+				k, ok := fieldKind(fl.Type)
+				if !ok {
+					okAll = false
+					break
+				}
+				for _, n := range fl.Names {
+					fs = append(fs, field{n.Name, k})
+				}
+			}
+			if okAll {
+				structs[ts.Name.Name] = fs
+			}
+		}
+	}
+	return f
+}
+
+func fieldKind(x ast.Expr) (kind, bool) {
+	switch exprName(x) {
+	case "string", "ObjectType":
+		return kStr, true
+	case "OID":
+		return kOIDVal, true
+	case "uint", "uint64":
+		return kU64, true
+	case "bool":
+		return kBool, true
+	}
+	if sel, ok := x.(*ast.SelectorExpr); ok && exprName(sel.X) == "counts" && (sel.Sel.Name == "Count32" || sel.Sel.Name == "Count64") {
+		return kU64, true
+	}
+	if at, ok := x.(*ast.ArrayType); ok && at.Len == nil && exprName(at.Elt) == "OID" {
+		return kOIDs, true
+	}
+	return 0, false
+}
+
+// translateFlat translates a function or method of package git whose results may be structs and
+// whose receiver may be a pointer: the Lean result is ONE flat tuple — the results in order (a
+// struct contributes its fields in declaration order, the error is the monad's), followed by the
+// fields of a pointer receiver as the method leaves them.
+func translateFlat(repo, rel, recvType, fn, leanName string, out *strings.Builder) {
+	f := loadStructs(repo, rel)
+	for _, d := range f.Decls {
+		fd, ok := d.(*ast.FuncDecl)
+		if !ok || fd.Name.Name != fn {
+			continue
+		}
+		rt, ptr := "", false
+		if fd.Recv != nil && len(fd.Recv.List) == 1 {
+			x := fd.Recv.List[0].Type
+			if st, ok := x.(*ast.StarExpr); ok {
+				x, ptr = st.X, true
+			}
+			rt = exprName(x)
+		}
+		if rt != recvType {
+			continue
+		}
+		e := &env{vars: map[string]kind{}, name: map[string]string{}, structVars: map[string]string{}, flat: true}
+		var params []string
+		if rt != "" {
+			r := fd.Recv.List[0].Names[0].Name
+			if structs[rt] == nil {
+				die(fd.Pos(), "receiver type with unsupported fields")
+			}
+			e.structVars[r] = rt
+			for _, fl := range structs[rt] {
+				key := r + "." + fl.name
+				e.vars[key], e.name[key] = fl.k, "g_"+r+"_"+fl.name
+				params = append(params, fmt.Sprintf("(g_%s_%s : %s)", r, fl.name, leanType(fl.k)))
+			}
+			if ptr { // a pointer receiver that the body never assigns to is as good as a value receiver
+				mutates := false
+				ast.Inspect(fd.Body, func(n ast.Node) bool {
+					if as, ok := n.(*ast.AssignStmt); ok {
+						for _, l := range as.Lhs {
+							if sel, ok := l.(*ast.SelectorExpr); ok && exprName(sel.X) == r {
+								mutates = true
+							}
+						}
+					}
+					if u, ok := n.(*ast.UnaryExpr); ok && u.Op == token.AND && exprName(u.X) == r {
+						mutates = true
+					}
+					if id, ok := n.(*ast.Ident); ok && id.Name == r {
+						// any use of the receiver other than r.field is not understood
+						_ = id
+					}
+					return true
+				})
+				ptr = mutates
+			}
+			if ptr {
+				e.recvName, e.recvType = r, rt
+			}
+		}
+		for _, p := range fd.Type.Params.List {
+			for _, n := range p.Names {
+				if exprName(p.Type) == "OID" { // used for error messages only: its String()
+					key := n.Name + ".String()"
+					e.vars[key], e.name[key] = kStr, "g_"+n.Name+"_String"
+					params = append(params, fmt.Sprintf("(g_%s_String : Bytes)", n.Name))
+					continue
+				}
+				k := kStr
+				if at, ok := p.Type.(*ast.ArrayType); ok && at.Len == nil && exprName(at.Elt) == "byte" {
+					k = kStr
+				} else {
+					k = kindOfType(p.Type)
+				}
+				e.vars[n.Name], e.name[n.Name] = k, "g_"+n.Name
+				params = append(params, fmt.Sprintf("(g_%s : %s)", n.Name, leanType(k)))
+			}
+		}
+		var want []kind
+		var wantT []string
+		resStruct := ""
+		if fd.Type.Results != nil {
+			for _, r := range fd.Type.Results.List {
+				x := r.Type
+				if st, ok := x.(*ast.StarExpr); ok {
+					x = st.X
+				}
+				if fs, ok := structs[exprName(x)]; ok {
+					want = append(want, kStruct)
+					resStruct = exprName(x)
+					for _, fl := range fs {
+						wantT = append(wantT, leanType(fl.k))
+					}
+					continue
+				}
+				k := kindOfType(x)
+				want = append(want, k)
+				if k != kErr {
+					wantT = append(wantT, leanType(k))
+				}
+			}
+		}
+		if ptr {
+			for _, fl := range structs[rt] {
+				wantT = append(wantT, leanType(fl.k))
+			}
+		}
+		var aux strings.Builder
+		e.params, e.fname, e.want, e.aux, e.resType = params, leanName, want, &aux, strings.Join(wantT, " × ")
+		body := e.stmts(fd.Body.List, "  ", func(ind string) string {
+			die(fd.End(), "function falls off its end")
+			return ""
+		})
+		out.WriteString(aux.String())
+		fmt.Fprintf(out, "/-- %s: %s%s -/\ndef %s %s : Res (%s) := do\n%s\n\n", rel, map[bool]string{true: "(" + recvType + ") ", false: ""}[recvType != ""], fn, leanName, strings.Join(params, " "), e.resType, body)
+		m := method{lean: leanName, want: want, ptr: ptr, recv: rt, resStruct: resStruct}
+		if rt != "" {
+			methods[rt+"."+fn] = m
+		} else {
+			funcs[fn] = m
+		}
+		return
+	}
+	fmt.Fprintf(os.Stderr, "gostr2lean: %s: function %s not found\n", rel, fn)
+	os.Exit(1)
+}
+
 // translateGetConfigLoop translates the record loop of (*Repository).GetConfig and the return that
 // follows it: `out` (the listing `git config --list -z` printed) and `prefix` are parameters, the
 // accumulated `config.Entries` is the result.
@@ -967,11 +1525,36 @@ func translateGetConfigLoop(repo string, out *strings.Builder) {
 }
 
 func main() {
-	if len(os.Args) != 3 {
-		fmt.Fprintln(os.Stderr, "usage: gostr2lean <repo> <outdir>")
+	if len(os.Args) != 3 && len(os.Args) != 4 {
+		fmt.Fprintln(os.Stderr, "usage: gostr2lean <repo> <outdir> [strs|objs]")
 		os.Exit(2)
 	}
 	repo, outdir := os.Args[1], os.Args[2]
+	what := "all"
+	if len(os.Args) == 4 {
+		what = os.Args[3]
+	}
+	if what == "all" || what == "objs" {
+		var o strings.Builder
+		o.WriteString("import GitSizer.Basic.GoSem\n-- GENERATED by tools/gostr2lean from git/tree.go, git/obj_head_iter.go, git/commit.go and git/tag.go — do not edit\nnamespace Gen.Objs\nopen GitSizer\n\n")
+		translateFlat(repo, "git/tree.go", "TreeIter", "NextEntry", "TreeIter_NextEntry", &o)
+		translateFlat(repo, "git/obj_head_iter.go", "", "NewObjectHeaderIter", "NewObjectHeaderIter", &o)
+		translateFlat(repo, "git/obj_head_iter.go", "ObjectHeaderIter", "HasNext", "ObjectHeaderIter_HasNext", &o)
+		translateFlat(repo, "git/obj_head_iter.go", "ObjectHeaderIter", "Next", "ObjectHeaderIter_Next", &o)
+		loopMeasure["ParseCommit"] = "iter.data"
+		loopMeasure["ParseTag"] = "iter.data"
+		translateFlat(repo, "git/commit.go", "", "ParseCommit", "ParseCommit", &o)
+		translateFlat(repo, "git/tag.go", "", "ParseTag", "ParseTag", &o)
+		o.WriteString("end Gen.Objs\n")
+		os.MkdirAll(outdir, 0o755)
+		if err := os.WriteFile(filepath.Join(outdir, "Objs.lean"), []byte(o.String()), 0o644); err != nil {
+			panic(err)
+		}
+	}
+	tmp = 0
+	if what == "objs" {
+		return
+	}
 	var out strings.Builder
 	out.WriteString("import GitSizer.Basic.GoSem\n-- GENERATED by tools/gostr2lean from git/ref_filter.go, git/gitconfig.go, sizes/path_resolver.go, git/batch_header.go and git/reference.go — do not edit\nnamespace Gen.Strs\nopen GitSizer\n\n")
 	translate(repo, "git/ref_filter.go", "prefixFilter", "Filter", "prefixFilter_Filter", &out)
